@@ -22,7 +22,7 @@ RULE = ("one evaluation = one seeded history (<= 40 operations) on a long-lived 
         "succeeds; emodulus is in addition compared with a direct call of features.emodulus.get_emodulus with inputs chosen by "
         "an independent precedence table. non-trivial = >=1 edit and >=1 read; distinct = distinct event-log digests")
 STATE_MEASURE = "distinct (feature, present emodulus keys, temp feature present, cached before?, last edited key) tuples"
-PROBES = ["read_again_after_refused_computation", "temp_feature_earlier_values_assigned_again", "read_cached_then_config_changed", "key_deleted_after_read", "emodulus_case_A", "emodulus_case_B", "emodulus_case_C",
+PROBES = ["read_repeated_after_transient_read_fault", "read_again_after_refused_computation", "temp_feature_earlier_values_assigned_again", "read_cached_then_config_changed", "key_deleted_after_read", "emodulus_case_A", "emodulus_case_B", "emodulus_case_C",
           "viscosity_changed_while_temperature_present", "temp_feature_replaced", "plugin_read", "unavailable_read_raises",
           "child_after_refresh", "file_backed", "scenario_switch", "ml_score_replaced", "temperature_zero", "grandchild_backing",
           "temp_feature_tail_changed", "temp_set_through_child", "child_read_without_explicit_refresh",
@@ -104,6 +104,8 @@ class World:
                 for f, v in self.data.items():
                     hw.store_feature(f, v)
             ctx.probe("file_backed")
+            from dst import faultfs
+            self.rseam = faultfs.ReadFaultSeam().install()
         self.temps = {}
         self.base = self.build_base()
         if k.get("big"):
@@ -173,6 +175,10 @@ class World:
                 self.pending_reads = list(dict.fromkeys(rel))[1:]
                 return {"k": "read", "feat": list(dict.fromkeys(rel))[0]}
             return {"k": "read", "feat": r.choice(rel)}
+        if getattr(self, "rseam", None) is not None and r.random() < 0.25:
+            # a read of the backing file fails once while a feature is read (computed); the caller reads again
+            return {"k": "faultread", "feat": r.choice(READ_FEATS + ["emodulus", "area_um", "c06_a"]), "at": r.choice([0, 0, 0, 1, 1, 2, 3, 5, 8]),
+                    "kind": r.choice(["err", "err", "intr"])}
         th = getattr(self, "temp_hist", {})
         tback = sorted(n_ for n_, v_ in th.items() if len(v_) >= 2 and v_[-1][0] != v_[-2][0])
         if tback and self.child is not None and r.random() < 0.5:
@@ -420,6 +426,34 @@ class World:
                     self.child.rejuvenate()
                 self.child_fresh = True
                 ctx.log("a", "refresh")
+            return
+        if k == "faultread":
+            seam = getattr(self, "rseam", None)
+            if seam is None:
+                return
+            feat = op["feat"]
+            # the file's scalar features are cold again, as right after opening it
+            for ev in list(getattr(getattr(self.base, "_events", None), "_cached_events", {}).values()):
+                if getattr(ev, "_array", None) is not None and hasattr(ev, "h5ds"):
+                    ev._array = None
+            seam.arm(op["at"], op["kind"])
+            raised = None
+            try:
+                with warnings.catch_warnings():
+                    warnings.simplefilter("ignore")
+                    obj = self.ds[feat]
+                    np.asarray(obj[0] if feat == "contour" else obj[:])
+            except BaseException as e:  # noqa: B036 (KeyboardInterrupt is one of the injected kinds)
+                if type(e).__name__ in ("StopRun", "SystemExit"):
+                    seam.disarm()
+                    raise
+                raised = e
+            fired = seam.disarm()
+            ctx.log("r", f"faultread {feat}", f"fired={fired} raised={type(raised).__name__ if raised is not None else None}")
+            if fired:
+                ctx.fault("read_" + op["kind"])
+                ctx.probe("read_repeated_after_transient_read_fault")
+            self.read_and_check(feat)
             return
         if k in ("read", "avail"):
             self.read_and_check(op["feat"], only_avail=(k == "avail"))
